@@ -26,15 +26,18 @@ ASSUMPTIONS = [
 ]
 BOUNDS = {'quick': {'events': '3 (own + foreign, any reply position); 5 (own only, reply first); 6 (own only, after UPLOAD to both directories)', 'directories': 2, 'services': 'own + one foreign sharing the directories', 'modes': 'first-upload and await-all'},
           'thorough': {'events': '4 (own + foreign, 2 directories, any reply position); 5 (own, 3 directories); 6 (own, 2 directories)'}}
-OUTSIDE = ['more than 4 mixed / 6 own events, more than 3 directories', 'authenticated services']
+OUTSIDE = ['more than 4 mixed / 6 own events, more than 3 directories', 'stealth-authenticated services']
 
 OWN = 'ownserviceidaaaaaaaaaaaaaaaaaaaaaaaaaaaaaaaaaaaaaaaaaaaa'
 FOREIGN = 'foreignserviceidbbbbbbbbbbbbbbbbbbbbbbbbbbbbbbbbbbbbbbbb'
 KIND = ['UPLOAD', 'UPLOADED', 'FAILED']
 
 
+_OWN_ADDR = [OWN]      # the address of the service under test (an authenticated service is known by its permanent id)
+
+
 def _event_text(kind, own, d):
-    addr = OWN if own else FOREIGN
+    addr = _OWN_ADDR[0] if own else FOREIGN
     hsdir = '$' + ('%X' % (10 + d)) * 40 + '~dir%d' % d
     if kind == 0:
         return 'UPLOAD %s UNKNOWN %s descid%d HSDIR_INDEX=x' % (addr, hsdir, d)
@@ -52,7 +55,7 @@ def _onion_handler(ln):
     return ['250 OK']
 
 
-def _wait(events, reply_at, await_all, ndirs, fs=False):
+def _wait(events, reply_at, await_all, ndirs, fs=False, auth=False):
     """events: list of (kind, own, dir); the reply to the creating command (ADD_ONION, or SETCONF for a filesystem service)
     is delivered before event index reply_at"""
     import shutil
@@ -63,13 +66,15 @@ def _wait(events, reply_at, await_all, ndirs, fs=False):
         with open(hsdir + '/hostname', 'w') as f:
             f.write(OWN + '.onion\n')
     try:
-        return _wait_inner(events, reply_at, await_all, ndirs, fs, hsdir)
+        _OWN_ADDR[0] = OWN
+        return _wait_inner(events, reply_at, await_all, ndirs, fs, hsdir, auth)
     finally:
+        _OWN_ADDR[0] = OWN
         if hsdir:
             shutil.rmtree(hsdir, ignore_errors=True)
 
 
-def _wait_inner(events, reply_at, await_all, ndirs, fs, hsdir):
+def _wait_inner(events, reply_at, await_all, ndirs, fs, hsdir, auth=False):
     values = dict(INITIAL)
     p, t, tor = make_world(values, True, {})
     if fs:
@@ -82,6 +87,14 @@ def _wait_inner(events, reply_at, await_all, ndirs, fs, hsdir):
     if out.ok != 1:
         return 'harness: bootstrap failed %r' % (out.exc(),)
     tor.onion_handler = _onion_handler
+    if auth:
+        # a version 2 service with basic client authorization: Tor names it by the permanent id of its RSA key
+        from harness.c17_onion_listen import _rsa
+        from txtorcon.onion import EphemeralAuthenticatedOnionService, AuthBasic
+        blob, permid = _rsa()
+        _OWN_ADDR[0] = permid
+        tor.onion_handler = lambda ln: (['250-ServiceID=' + permid, '250-PrivateKey=RSA1024:' + blob, '250-ClientAuth=bob:dG9yLXRva2Vu', '250 OK']
+                                        if ln.startswith('ADD_ONION') else ['250 OK'])
     progress = []
     held = []
     creating = 'SETCONF HiddenServiceDir' if fs else 'ADD_ONION'
@@ -99,6 +112,9 @@ def _wait_inner(events, reply_at, await_all, ndirs, fs, hsdir):
         if fs:
             d = FilesystemOnionService.create(object(), cfg, hsdir, ['80 127.0.0.1:8080'], version=3, progress=lambda *a: progress.append(a),
                                               await_all_uploads=True if await_all else None)
+        elif auth:
+            d = EphemeralAuthenticatedOnionService.create(object(), cfg, ['80 127.0.0.1:8080'], version=2, auth=AuthBasic(['bob']),
+                                                          progress=lambda *a: progress.append(a), await_all_uploads=True if await_all else None)
         else:
             d = EphemeralOnionService.create(object(), cfg, ['80 127.0.0.1:8080'], version=3, progress=lambda *a: progress.append(a),
                                              await_all_uploads=True if await_all else None)
@@ -173,7 +189,7 @@ def _wait_inner(events, reply_at, await_all, ndirs, fs, hsdir):
                     return R('event-subscription-left-after-%s' % ('completion' if o.ok else 'failure'), 'events %r', events[:i + 1])
                 if tor.setevents and 'HS_DESC' in tor.setevents[-1]:
                     return R('SETEVENTS-still-lists-HS_DESC-after-outcome')
-        if o.ok == 1 and (o.value.hostname != OWN + '.onion'):
+        if o.ok == 1 and not auth and (o.value.hostname != OWN + '.onion'):
             return R('wrong-hostname', '%r', o.value.hostname)
     except Exception as e:
         return R('exception', '%s: %s', type(e).__name__, e)
@@ -211,6 +227,14 @@ def c15_own5(e1: int, e2: int, e3: int, e4: int, e5: int, await_all: bool, fs: b
     fs = True if fs else False
     with api.no_tracing():
         return _wait(evs, 0, await_all, 2, fs)
+
+
+@cond(quick=dict(parts=[{'e1': a, 'await_all': m} for a in (0, 3) for m in (False, True)], budget=200))
+def c15_auth4(e1: int, e2: int, e3: int, e4: int, await_all: bool) -> str:
+    """an authenticated (basic auth, version 2) ephemeral service: 4 own events over 2 directories, reply first"""
+    evs = [_decode_own(e1)] + [_decode_own(api.pick(e, 0, 5)) for e in (e2, e3, e4)]
+    with api.no_tracing():
+        return _wait(evs, 0, await_all, 2, False, True)
 
 
 @cond(thorough=dict(parts=[{'e1': a, 'e2': b, 'await_all': m} for a in range(12) for b in range(12) for m in (False, True)], budget=600))
